@@ -1142,6 +1142,18 @@ static void run_line(char *line)
 		snprintf(rbuf, sizeof rbuf, "R %d\n", rc);
 		op_end_r(rbuf, NULL);
 		free(p);
+	} else if (!strcmp(w[0], "SLA") && n == 5) {
+		/* replace a string list by two of its own elements: cfg_setlist(cfg, n, 2, cfg_getnstr(cfg, n, i), cfg_getnstr(cfg, n, j)) */
+		char *p = unhex(w[2], NULL);
+		unsigned int i = (unsigned int)strtoul(w[3], NULL, 10), j = (unsigned int)strtoul(w[4], NULL, 10);
+		int rc;
+
+		NEEDCTX(1);
+		op_begin();
+		rc = cfg_setlist(CTX(1), p, 2, cfg_getnstr(CTX(1), p, i), cfg_getnstr(CTX(1), p, j));
+		snprintf(rbuf, sizeof rbuf, "R %d\n", rc);
+		op_end_r(rbuf, NULL);
+		free(p);
 	} else if (!strcmp(w[0], "SOA") && n == 3) {
 		/* set a string option from the very string it holds: the argument aliases what the call releases */
 		char *p = unhex(w[2], NULL);
